@@ -81,6 +81,11 @@ CHECKS.update({
                     "logger), and names recovered by the plotting helper from the calibrator's own checkpoint equal the live table. "
                     "Rediscovered the plot-helper TypeError and the non-persisted table (both fixed).",
             "note": "round-robin schedulers only for replacement."},
+    "C01": {"category": "exploration", "technique": PBT + " differential: variants of one configuration (n_jobs 1/2/4, verbose, saving folder, constructor seeds) must agree bit for bit",
+            "text": "Generated configurations over all nine samplers, both scheduler kinds and the five losses; three variants from "
+                    "fresh objects per configuration; all five history arrays and the return value are compared byte-wise. The RL + "
+                    "saving-folder crash is a listed known finding; everything else must agree.",
+            "note": "determinism of sklearn/xgboost/scipy on this machine is assumed; 3 variants per configuration."},
 })
 NOT_APPLICABLE = {p: "check not built yet in this session (design in DESIGN.md section 3); will be claimed once its harness exists"
                   for p in ALL if p not in CHECKS}
